@@ -81,11 +81,19 @@ def _job(args):
                           'family': how, 'orbit_size': exp, 'nsymop': o.nsymop, 'site_symmetry_order': stab,
                           'problem': 'orbit size != nsymop / order of the site-symmetry group (the table is not a group)'})
             break
-        for by in ('number', 'name'):
+        kinds = ['number', 'name']
+        if all(float(x).is_integer() for x in pos):
+            # argument kinds: a position with integral coordinates may arrive integer-typed (list of ints / int array)
+            kinds += ['number,int list', 'name,int array']
+        for by in kinds:
             if by == 'number':
                 got = S.multiplicity(pos, sgno=o.no, cell_choice=cc)
-            else:
+            elif by == 'name':
                 got = S.multiplicity(np.array(pos), sgname=o.name)
+            elif by == 'number,int list':
+                got = S.multiplicity([int(x) for x in pos], sgno=o.no, cell_choice=cc)
+            else:
+                got = S.multiplicity(np.array([int(x) for x in pos], dtype=int), sgname=o.name)
             n += 1
             if got != exp:
                 fails.append({'table': name, 'setting': setting, 'sgno': o.no, 'sgname': o.name, 'by': by,
